@@ -18,3 +18,5 @@ pub use order_type::OrderType;
 pub use pegged::PegReferenceType;
 pub use time_in_force::TimeInForce;
 pub use update::OrderUpdate;
+#[cfg(pricelevel_verif)]
+pub use status::OrderStatus;
